@@ -20,7 +20,8 @@ from collections import deque, OrderedDict, defaultdict
 
 from .. import worlds
 from ..canon import outcome_of, immutable_part, diff_dumps
-from ..seams import (Stepper, Ambient, UserFuncs, SimInterrupt, SimBudget)
+from ..seams import (Stepper, Ambient, UserFuncs, SimInterrupt, SimBudget,
+                     SimFS, install_fs, uninstall_fs)
 from . import c04
 
 ID = 'C05'
@@ -94,6 +95,15 @@ def gen_case(seed, tier='quick', index=1):
             k = rng.choice(kinds)
             evs[c].append(k)
             ops.append({'op': 'newev', 'copy': c, 'kind': k})
+        if rng.random() < 0.03:
+            pp = {'op': 'persist', 'copy': c, 'path': '/simfs/s.json'}
+            if rng.random() < 0.6:
+                pp['fault'] = rng.choice([
+                    {'kind': 'enospc', 'after_bytes': rng.choice(
+                        [0, 10, 200, 1500])},
+                    {'kind': 'eio', 'at': 1},
+                    {'kind': 'interrupt', 'step': rng.randint(1, 400)}])
+            ops.append(pp)
         if rng.random() < 0.04:
             ops.append({'op': 'clock_jump',
                         'delta': rng.choice([86400, -86400, 3.15e7, 1e9])})
@@ -117,7 +127,8 @@ def gen_case(seed, tier='quick', index=1):
                     'frac': round(rng.uniform(0.02, 1.2), 3)}
     knobs = {'copies': ncopies, 'first_ev': [evs[c][0] for c in range(ncopies)],
              'fail_on': rng.choice([1, 2, 4]) if faulty else None,
-             'max_empty': rng.choice([100, 100, 1, 3])}
+             'max_empty': rng.choice([100, 100, 1, 3]),
+             'decoy': rng.random() < 0.25}
     return {'property': ID, 'seed': seed, 'kind': 'sched', 'knobs': knobs,
             'world': world, 'ops': ops}
 
@@ -172,10 +183,15 @@ def make_evaluator(model, kind, uf):
 def run_case(case):
     if case.get('kind') == 'soak':
         return run_soak(case)
-    return run_sched(case)
+    fs = SimFS()
+    install_fs(fs)
+    try:
+        return run_sched(case, fs)
+    finally:
+        uninstall_fs()
 
 
-def run_sched(case):
+def run_sched(case, fs):
     from xlcalculator import ast_nodes
     world = case['world']
     knobs = case['knobs']
@@ -189,6 +205,9 @@ def run_sched(case):
     with Ambient(case['seed']) as amb:
         ast_nodes.MAX_EMPTY = knobs.get('max_empty', 100)
         ncopies = knobs.get('copies', 1)
+        if knobs.get('decoy'):
+            worlds.run_decoy(world)
+            bump('probe:decoy_model_first')
         models = [worlds.world_model(world, stale=True)
                   for _ in range(ncopies)]
         uf = UserFuncs(knobs.get('fail_on'))
@@ -226,6 +245,34 @@ def run_sched(case):
                 log.append([seq, 'clock_jump', op['delta']])
                 continue
             c = op.get('copy', 0) % ncopies
+            if op['op'] == 'persist':
+                f = op.get('fault')
+                wf, at = None, None
+                if f is not None:
+                    if f['kind'] == 'interrupt':
+                        at = f['step']
+                    elif f['kind'] == 'eio':
+                        wf = {'kind': 'eio', 'at': f['at']}
+                    else:
+                        wf = {'kind': 'enospc',
+                              'after_bytes': f['after_bytes']}
+                fs.reset_op(bufsize=64, write_fault=wf)
+                before = immutable_part(models[c])
+                st = Stepper(interrupt_at=at, max_steps=SAFETY_STEPS)
+                with st:
+                    out = outcome_of(models[c].persist_to_json_file,
+                                     op['path'])
+                fired = list(fs.op_fired) + (
+                    ['interrupt_in_persist'] if st.fired == 'interrupt'
+                    else [])
+                fs.reset_op()
+                for k in fired:
+                    bump(f'fault:{k}')
+                    bump('faults_fired')
+                bump('probe:persist_between_evaluations')
+                log.append([seq, 'persist', c, fired, out[0]])
+                sig.append('p' + (fired[0][:1] if fired else ''))
+                continue
             if op['op'] == 'newev':
                 evs[c].append((op['kind'],
                                make_evaluator(models[c], op['kind'], uf)))
